@@ -173,6 +173,15 @@ func Observed() []string { return observed }
 // Symbolic reports whether the harness runs under the engine.
 func Symbolic() bool { return false }
 
+// NativePause widens a race window in native replays (no effect under the
+// engine, where the scheduler explores the interleaving itself).
+func NativePause() {
+	if Symbolic() {
+		return
+	}
+	time.Sleep(100 * time.Millisecond)
+}
+
 // Unit is the time unit of timing harnesses: one minute on the engine's
 // virtual clock, 100ms in a native replay (so that replays finish in seconds).
 // Only durations the harness controls may be expressed in it.
